@@ -141,7 +141,7 @@ Observe ==
                keys |-> KeysOf(Root, o), explain |-> Explain(Root, o),
                mentions |-> Mentions(Root), reads |-> TemplateReads(Root, o),
                restrict |-> LET k == KeysOf(Root, o) IN IF k.ok THEN Restrict(o, k.ks) ELSE EmptyD,
-               permit |-> Permit(Root, o), dem |-> Dem(Root, o), cacheslazy |-> CachesLazy(Root, o),
+               permit |-> Permit(Root, o), dem |-> Dem(Root, o), demk |-> DemK(Root, o), cacheslazy |-> CachesLazy(Root, o),
                valruns |-> LET vr == ValRuns(Root, o) IN vr \cup {BaseOf(m) : m \in vr},
                maylog |-> MayLog(Root, o), mustlog |-> MustLog(Root, o), nolog |-> NoLog(Root, o),
                swallows |-> Swallows(Root, o) \/ LET k == KeysOf(Root, o) IN k.ok /\ Swallows(Root, Restrict(o, k.ks)),
